@@ -210,19 +210,30 @@ def run(repo: Repo, chk: Check, thorough: bool = False) -> None:
         tw = cfg.dominating_tests(cfg.stmt_of(warn[0]))
         ts = cfg.dominating_tests(store[0])
         act = {t.id for n in vpp.walk() if isinstance(n, ast.Assign) and n.value in look for t in n.targets if isinstance(t, ast.Name)}
-        ok = any((not pol) and norm(t) in act for t, pol in tw) and any(pol and norm(t) in act for t, pol in ts)
+
+        def is_known(t: ast.AST) -> bool:          # the lookup result, held in a local or tested directly
+            return norm(t) in act or t in look
+        ok = any((not pol) and is_known(t) for t, pol in tw) and any(pol and is_known(t) for t, pol in ts)
     chk.ob('R20.2', f'{CP}.ValidatorParser.parse :: unknown key -> warning, not forwarded', ok,
            'if not action: warnings.warn(...) else: new_data[key] = value' if ok else 'unknown keys are no longer warned about and dropped', vpp.loc)
     rets = [n for n in vpp.walk() if isinstance(n, ast.Return)]
     filtered = {norm(t.value) for s_ in store for t in s_.targets if isinstance(t, ast.Subscript)}
     ok = bool(rets) and bool(filtered) and all(norm(r.value) in filtered for r in rets)
     chk.ob('R20.2', f'{CP}.ValidatorParser.parse :: returns the filtered mapping', ok, 'return new_data' if ok else 'the unfiltered data is returned', vpp.loc)
-    kk = [n for n in vpp.walk() if isinstance(n, ast.DictComp) and 'get_possible_config_keys' in norm(n)]
+    # the table of known keys: a comprehension, or nested loops, over `parser._actions` x `get_possible_config_keys(action)`
+    kk: List[ast.AST] = [n for n in vpp.walk() if isinstance(n, ast.DictComp) and 'get_possible_config_keys' in norm(n)]
+    kk += [n for n in vpp.walk() if isinstance(n, ast.For) and norm(n.iter).endswith('._actions') and
+           any(isinstance(x, ast.Call) and call_name(x) == 'get_possible_config_keys' for st in n.body for x in ast.walk(st))]
     chk.ob('R20.2', f'{CP}.ValidatorParser.parse :: known keys come from the argument parser itself', bool(kk),
            'argument_parser.get_possible_config_keys(action) for every action' if kk else 'known keys are no longer derived from the parser', vpp.loc)
     for n in kk:
-        conds = [c for g in n.generators for c in g.ifs]
-        over_actions = any(norm(g.iter).endswith('._actions') for g in n.generators)
+        if isinstance(n, ast.DictComp):
+            conds = [c for g in n.generators for c in g.ifs]
+            over_actions = any(norm(g.iter).endswith('._actions') for g in n.generators)
+        else:
+            assert isinstance(n, ast.For)
+            conds = [x.test for st in n.body for x in ast.walk(st) if isinstance(x, ast.If)]
+            over_actions = True
         chk.ob('R20.2', f'{CP}.ValidatorParser.parse :: every action of the parser contributes its config keys', over_actions and not conds,
                'all of argument_parser._actions, unfiltered (which keys an action answers to is decided by get_possible_config_keys)' if over_actions and not conds else
                f'the known keys are restricted by `{norm(conds[0]) if conds else "?"}`: an option the command line accepts is reported as "No such config '
@@ -270,7 +281,9 @@ def run(repo: Repo, chk: Check, thorough: bool = False) -> None:
                f'{libcall}() inside try/except -> ConfigFileParserException' if ok else
                f'an error of {libcall}() escapes with its own type: the composite parser / configargparse does not report it as a config error', f.loc)
     for f in (tp, ip):
-        lists = [n for n in f.walk() if isinstance(n, ast.ListComp) and isinstance(n.elt, ast.Call) and call_name(n.elt) == 'str']
+        from ..util import scope_nodes
+        lists = [n for n in scope_nodes(repo, f) if isinstance(n, ast.ListComp) and isinstance(n.elt, ast.Call) and call_name(n.elt) == 'str'] + \
+            [n for n in scope_nodes(repo, f) if isinstance(n, ast.Call) and call_name(n) == 'map' and n.args and norm(n.args[0]) == 'str']
         chk.ob('R20.4', f'{f.qn} :: list elements are converted to str', bool(lists), '[str(i) for i in ...]' if lists else
                'list values keep their parsed type: argparse receives non-string items', f.loc)
     ok = any(isinstance(n, ast.Assign) and isinstance(n.value, ast.Call) and call_name(n.value) == 'str' and 'result' in norm(n.targets[0]) for n in tp.walk())
